@@ -1,19 +1,1197 @@
-//! G-typed: kind-directed generator of module sets (placeholder until the full generator lands).
+//! G-typed / G-loose: kind-directed generator of module sets over the generator's own AST.
+//! It never calls oal to decide what to generate.
 
+use super::ast::*;
 use crate::tape::Tape;
+use serde_json::{json, Value};
+use std::collections::{BTreeMap, BTreeSet, VecDeque};
 
-/// A small valid-looking program as text.
-pub fn quick_program_text(t: &mut Tape) -> String {
-    let schemas = ["num", "str", "{ 'a num , 'b [ str ] }", "[ int ]", "uri", "( num | str )", "{ } & { 'c bool }", "num ~ { }"];
-    let mut s = String::new();
-    let n = t.range(1, 4);
-    for i in 0..n {
-        s.push_str(&format!("let d{} = {} ;\n", i, t.pick(&schemas)));
+#[derive(Clone, Debug)]
+pub struct GenCfg {
+    /// Avoid, by construction, the classes excluded from the strict fragment.
+    pub strict: bool,
+    /// Kind confusions that the checker's coarse tags let through (each a known finding).
+    pub loose_ranges_as_content: bool, // F2
+    pub loose_op_as_plain: bool,       // F4
+    pub loose_rec_as_plain: bool,      // F3
+    pub loose_cross_module_poly: bool, // F1
+    /// Draw names from a very small pool so that shadowing happens often.
+    pub shadowing: bool,
+    /// Let declaration bodies mention declarations that are still being generated (cycles).
+    pub cycles: bool,
+    pub max_modules: usize,
+    pub max_decls: usize,
+    pub max_depth: usize,
+    pub annotations: bool,
+    pub max_resources: usize,
+    /// Also close cycles that have nothing to cut at (expected to be rejected).
+    pub invalid_cycles: bool,
+}
+
+impl GenCfg {
+    pub fn strict() -> Self {
+        GenCfg {
+            strict: true,
+            loose_ranges_as_content: false,
+            loose_op_as_plain: false,
+            loose_rec_as_plain: false,
+            loose_cross_module_poly: false,
+            shadowing: false,
+            cycles: true,
+            max_modules: 3,
+            max_decls: 10,
+            max_depth: 4,
+            annotations: true,
+            max_resources: 3,
+            invalid_cycles: false,
+        }
     }
-    s.push_str(&format!(
-        "res /p/{{ 'id num }} ?{{ 'q str }} on get , put {{ 'x! int }} : d0 -> < status = {} , media = \"a/b\" , headers = {{ 'h str }} , {} > :: <> ;\n",
-        t.pick(&["200", "404", "5XX"]),
-        t.pick(&schemas)
-    ));
-    s
+    pub fn full() -> Self {
+        GenCfg { strict: false, ..GenCfg::strict() }
+    }
+}
+
+/// What a position accepts.
+#[derive(Clone, Debug, PartialEq)]
+pub enum Want {
+    /// Any schema (optionally of a given tag), any run-time shape.
+    Schema(Option<Tag>),
+    /// A schema of the given tag whose run-time value is the matching constructor.
+    Plain(Tag),
+    Prop(Option<Tag>),
+    Content,
+    ContentLike,
+    RangesLike,
+    Transfer,
+    Text,
+    Number,
+    /// A status range literal such as `4XX` (or something bound to one).
+    Status,
+    StatusLike,
+}
+
+struct Pending {
+    id: Bid,
+    module: usize,
+    /// Declarations completed before this one was created may be mentioned from its plain slots.
+    created_at: usize,
+    acyclic: bool,
+}
+
+pub struct Gen<'t> {
+    pub t: &'t mut Tape,
+    pub cfg: GenCfg,
+    pub prog: Program,
+    queue: VecDeque<Pending>,
+    /// Declarations per module, in creation order.
+    mod_decls: Vec<Vec<Bid>>,
+    /// Completion time of each finished declaration.
+    completed: BTreeMap<Bid, usize>,
+    acyclic: BTreeSet<Bid>,
+    clock: usize,
+    // Current context
+    cur_module: usize,
+    cur: Option<Pending>,
+    scope: Vec<Bid>,
+    budget: isize,
+    /// Whether the position being generated is the head of a declaration body, of a `rec` body or
+    /// of an argument (nothing but parentheses and annotations between it and that root).
+    head: bool,
+    /// The head is that of a `rec` body (whose kind must be known inside the module: no parameters).
+    rec_head: bool,
+    /// Mentions between declarations generated so far.
+    edges: BTreeSet<(Bid, Bid)>,
+    at_names: BTreeSet<String>,
+    used_paths: BTreeSet<String>,
+    pub labels: BTreeSet<&'static str>,
+}
+
+const NAME_POOL: &[&str] = &["a", "b", "c", "d", "e", "f", "g", "h", "k", "m", "n", "p", "q", "r", "s", "t", "u", "v", "w", "x", "y", "z"];
+const SMALL_POOL: &[&str] = &["a", "b", "x", "y"];
+const PROP_NAMES: &[&str] = &["id", "name", "n", "v", "w", "a-b", "x_1", "null", "true", "123", "$ref", "-", "type", "If-Match", "ETag"];
+const SEGMENTS: &[&str] = &["a", "b", "items", "v1", "x.y", "p~q", "A", "a-b", "%41", "c_d"];
+const MEDIA: &[&str] = &["application/json", "text/plain", "a/b", "application/vnd.x+json", "image/*"];
+const STRINGS: &[&str] = &["s", "null", "1e3", "~", " lead", "trail ", "a: b", "# no", "it's", "caf\u{e9}", "\u{1F600}", "", "true", "0"];
+
+impl<'t> Gen<'t> {
+    pub fn new(t: &'t mut Tape, cfg: GenCfg) -> Self {
+        Gen {
+            t,
+            cfg,
+            prog: Program::default(),
+            queue: VecDeque::new(),
+            mod_decls: Vec::new(),
+            completed: BTreeMap::new(),
+            acyclic: BTreeSet::new(),
+            clock: 0,
+            cur_module: 0,
+            cur: None,
+            scope: Vec::new(),
+            budget: 0,
+            head: false,
+            rec_head: false,
+            edges: BTreeSet::new(),
+            at_names: BTreeSet::new(),
+            used_paths: BTreeSet::new(),
+            labels: BTreeSet::new(),
+        }
+    }
+
+    // -------------------------------------------------------------------------------------
+    // Names and visibility
+
+    fn add_module(&mut self) -> usize {
+        let i = self.prog.modules.len();
+        let file = if i == 0 { "main.oal".to_owned() } else { format!("m{i}.oal") };
+        self.prog.modules.push(Module { file, stmts: Vec::new() });
+        self.mod_decls.push(Vec::new());
+        i
+    }
+
+    fn name_of(&self, b: Bid) -> &str {
+        &self.prog.binders[b].name
+    }
+
+    /// Names that module `m` sees at its top level without qualification.
+    fn top_names(&self, m: usize) -> BTreeSet<String> {
+        let mut s: BTreeSet<String> = self.mod_decls[m].iter().map(|b| self.name_of(*b).to_owned()).collect();
+        s.insert("concat".to_owned());
+        for i in self.prog.imports.iter().filter(|i| i.module == m && i.qualifier.is_none()) {
+            for b in &self.mod_decls[i.target] {
+                s.insert(self.name_of(*b).to_owned());
+            }
+        }
+        s
+    }
+
+    fn unqualified_importers(&self, m: usize) -> Vec<usize> {
+        self.prog.imports.iter().filter(|i| i.target == m && i.qualifier.is_none()).map(|i| i.module).collect()
+    }
+
+    /// A name for a new top-level declaration of module `m` that clashes with nothing.
+    fn fresh_decl_name(&mut self, m: usize, reference: bool) -> String {
+        let mut taken = self.top_names(m);
+        for imp in self.unqualified_importers(m) {
+            taken.extend(self.top_names(imp));
+        }
+        // The declaration is about to be mentioned from the current position: a binder in scope
+        // with the same name would capture that mention.
+        for b in &self.scope {
+            taken.insert(self.name_of(*b).to_owned());
+        }
+        // Qualifiers live in another name space, keywords are not identifiers.
+        let pool: &[&str] = if self.cfg.shadowing { SMALL_POOL } else { NAME_POOL };
+        for _ in 0..6 {
+            let base = self.t.pick(pool);
+            let n = if reference { format!("@{base}") } else { base.to_owned() };
+            let global_clash = reference && self.cfg.strict && self.at_names.contains(&n);
+            if !taken.contains(&n) && !global_clash {
+                if reference {
+                    self.at_names.insert(n.clone());
+                }
+                return n;
+            }
+        }
+        let mut k = self.prog.binders.len();
+        loop {
+            let n = if reference { format!("@r{k}") } else { format!("d{k}") };
+            if !taken.contains(&n) && !self.at_names.contains(&n) {
+                if reference {
+                    self.at_names.insert(n.clone());
+                }
+                return n;
+            }
+            k += 1;
+        }
+    }
+
+    fn fresh_local_name(&mut self) -> String {
+        let pool: &[&str] = if self.cfg.shadowing { SMALL_POOL } else { NAME_POOL };
+        // Local binders may shadow anything, but not a sibling parameter (checked by the caller).
+        self.t.pick(pool).to_owned()
+    }
+
+    /// Resolves a plain name in the current scope the way the language defines it; returns the binder.
+    fn resolve_local(&self, name: &str) -> Option<Bid> {
+        self.scope.iter().rev().find(|b| self.name_of(**b) == name).copied()
+    }
+
+    /// All (binder, via) pairs visible from the current position, each reachable by its spelling.
+    fn visible(&self) -> Vec<(Bid, Option<ImportId>)> {
+        let mut out = Vec::new();
+        let mut shadowed: BTreeSet<&str> = BTreeSet::new();
+        for b in self.scope.iter().rev() {
+            let n = self.name_of(*b);
+            if shadowed.insert(n) {
+                out.push((*b, None));
+            }
+        }
+        for b in &self.mod_decls[self.cur_module] {
+            if !shadowed.contains(self.name_of(*b)) {
+                out.push((*b, None));
+            }
+        }
+        for (ii, imp) in self.prog.imports.iter().enumerate() {
+            if imp.module != self.cur_module {
+                continue;
+            }
+            for b in &self.mod_decls[imp.target] {
+                if imp.qualifier.is_some() || !shadowed.contains(self.name_of(*b)) {
+                    out.push((*b, Some(ii)));
+                }
+            }
+        }
+        out
+    }
+
+    fn concat_visible(&self) -> bool {
+        self.resolve_local("concat").is_none()
+    }
+
+    // -------------------------------------------------------------------------------------
+    // Kinds
+
+    fn satisfies(&self, k: &K, w: &Want, binder: Option<Bid>) -> bool {
+        match (k, w) {
+            (K::S(t, _), Want::Schema(wt)) => wt.map_or(true, |x| x == *t),
+            (K::S(t, sh), Want::Plain(wt)) => {
+                if t != wt {
+                    return false;
+                }
+                let shape_ok = match sh {
+                    Shape::Plain => true,
+                    Shape::Op => self.cfg.loose_op_as_plain,
+                    Shape::RecVar => self.cfg.loose_rec_as_plain,
+                };
+                let cycle_ok = match binder {
+                    Some(b) if matches!(self.prog.binders[b].kind, BinderKind::Decl { .. }) => self.safe_for_plain(b) || self.cfg.loose_rec_as_plain,
+                    _ => true,
+                };
+                shape_ok && cycle_ok
+            }
+            (K::P(t), Want::Prop(wt)) => wt.map_or(true, |x| x == *t),
+            (K::Content, Want::Content | Want::ContentLike | Want::RangesLike) => true,
+            (K::S(_, _), Want::ContentLike | Want::RangesLike) => true,
+            (K::Ranges, Want::RangesLike) => true,
+            (K::Ranges, Want::ContentLike | Want::Content) => self.cfg.loose_ranges_as_content,
+            (K::Transfer, Want::Transfer) => true,
+            (K::Text, Want::Text) => true,
+            (K::Number, Want::Number | Want::StatusLike) => true,
+            (K::Status, Want::StatusLike | Want::Status) => true,
+            _ => false,
+        }
+    }
+
+    /// Acyclic declarations are closed (they mention only acyclic declarations) and no mention
+    /// among them may close a cycle, so they form a DAG and are never under evaluation when one
+    /// of their users is. Only those may be mentioned from a plain slot (headers, relation URI,
+    /// `res`, `concat`).
+    fn safe_for_plain(&self, b: Bid) -> bool {
+        if !self.acyclic.contains(&b) {
+            return false;
+        }
+        match &self.cur {
+            Some(p) if p.acyclic => !self.reaches(b, p.id),
+            _ => true,
+        }
+    }
+
+    fn reaches(&self, from: Bid, to: Bid) -> bool {
+        let mut seen = BTreeSet::new();
+        let mut stack = vec![from];
+        while let Some(x) = stack.pop() {
+            if x == to {
+                return true;
+            }
+            if seen.insert(x) {
+                for (a, b) in self.edges.range((x, 0)..(x + 1, 0)) {
+                    debug_assert_eq!(*a, x);
+                    stack.push(*b);
+                }
+            }
+        }
+        false
+    }
+
+    /// Whether mentioning declaration `b` here keeps every cycle cut at a schema declaration.
+    fn cycle_ok(&mut self, b: Bid, at_head: bool) -> bool {
+        let Some(cur) = self.cur.as_ref().map(|p| p.id) else { return true };
+        if !self.reaches(b, cur) {
+            return true;
+        }
+        if !self.cfg.cycles {
+            return false;
+        }
+        let referential = matches!(self.prog.binders[b].k, K::S(t, _) if t != Tag::Uri);
+        if referential && !at_head {
+            self.labels.insert("declaration-cycle");
+            return true;
+        }
+        if self.cfg.invalid_cycles && self.t.chance(1, 4) {
+            self.labels.insert("invalid-cycle");
+            return true;
+        }
+        false
+    }
+
+    fn note_edge(&mut self, b: Bid) {
+        if let Some(cur) = self.cur.as_ref().map(|p| p.id) {
+            self.edges.insert((cur, b));
+        }
+    }
+
+    fn cur_acyclic(&self) -> bool {
+        self.cur.as_ref().map_or(false, |p| p.acyclic)
+    }
+
+    fn concrete_kind(&mut self, w: &Want) -> K {
+        let tag = |t: &mut Tape| t.pick(&[Tag::Obj, Tag::Prim, Tag::Arr, Tag::Obj, Tag::Any, Tag::Rel, Tag::Uri]);
+        match w {
+            Want::Schema(None) => {
+                let tg = tag(self.t);
+                let sh = if tg == Tag::Any || self.t.chance(1, 5) { Shape::Op } else { Shape::Plain };
+                K::S(tg, sh)
+            }
+            Want::Schema(Some(tg)) => {
+                let sh = if *tg == Tag::Any || self.t.chance(1, 5) { Shape::Op } else { Shape::Plain };
+                K::S(*tg, sh)
+            }
+            Want::Plain(tg) => K::S(*tg, Shape::Plain),
+            Want::Prop(None) => K::P(tag(self.t)),
+            Want::Prop(Some(tg)) => K::P(*tg),
+            Want::Content => K::Content,
+            Want::ContentLike => {
+                if self.t.chance(1, 2) {
+                    K::Content
+                } else {
+                    self.concrete_kind(&Want::Schema(None))
+                }
+            }
+            Want::RangesLike => match self.t.choose(3) {
+                0 => K::Content,
+                1 => K::Ranges,
+                _ => self.concrete_kind(&Want::Schema(None)),
+            },
+            Want::Transfer => K::Transfer,
+            Want::Text => K::Text,
+            Want::Number => K::Number,
+            Want::Status => K::Status,
+            Want::StatusLike => {
+                if self.t.chance(1, 2) {
+                    K::Number
+                } else {
+                    K::Status
+                }
+            }
+        }
+    }
+
+    fn want_of(k: &K) -> Want {
+        match k {
+            K::S(t, Shape::Plain) => Want::Plain(*t),
+            K::S(t, _) => Want::Schema(Some(*t)),
+            K::P(t) => Want::Prop(Some(*t)),
+            K::Content => Want::Content,
+            K::Ranges => Want::RangesLike,
+            K::Transfer => Want::Transfer,
+            K::Text => Want::Text,
+            K::Number => Want::Number,
+            K::Status => Want::Status,
+            K::F(_, _) => Want::Schema(None),
+        }
+    }
+
+    // -------------------------------------------------------------------------------------
+    // Declarations on demand
+
+    /// Chooses the module for a declaration requested from the current module.
+    fn place(&mut self) -> (usize, Option<ImportId>) {
+        let m = self.cur_module;
+        if self.cfg.max_modules <= 1 || self.t.chance(13, 20) {
+            return (m, None);
+        }
+        // Imports only go from lower to higher module indices, so the import graph is a DAG.
+        let existing: Vec<ImportId> = self.prog.imports.iter().enumerate().filter(|(_, i)| i.module == m).map(|(ii, _)| ii).collect();
+        if !existing.is_empty() && self.t.chance(3, 5) {
+            let ii = self.t.pick(&existing);
+            return (self.prog.imports[ii].target, Some(ii));
+        }
+        let target = if m + 1 < self.prog.modules.len() && self.t.chance(1, 2) {
+            self.t.range(m + 1, self.prog.modules.len() - 1)
+        } else if self.prog.modules.len() < self.cfg.max_modules {
+            self.add_module()
+        } else if m + 1 < self.prog.modules.len() {
+            self.t.range(m + 1, self.prog.modules.len() - 1)
+        } else {
+            return (m, None);
+        };
+        // A new import, qualified or not. An unqualified import must not bring clashing names.
+        let qualified = self.t.chance(3, 5) || {
+            let mine = self.top_names(m);
+            self.mod_decls[target].iter().any(|b| mine.contains(self.name_of(*b)))
+                || self.prog.imports.iter().any(|i| i.module == m && i.qualifier.is_none() && i.target == target)
+        };
+        let qualifier = if qualified {
+            let taken: BTreeSet<String> = self.prog.imports.iter().filter(|i| i.module == m).filter_map(|i| i.qualifier.clone()).collect();
+            let pool: &[&str] = if self.cfg.shadowing { SMALL_POOL } else { &["m", "lib", "q", "x", "a"] };
+            let mut q = self.t.pick(pool).to_owned();
+            let mut k = 0;
+            while taken.contains(&q) {
+                k += 1;
+                q = format!("q{k}");
+            }
+            Some(q)
+        } else {
+            None
+        };
+        let file = self.prog.modules[target].file.clone();
+        let path = match self.t.choose(4) {
+            0 => format!("./{file}"),
+            1 => format!("x/../{file}"),
+            _ => file,
+        };
+        self.prog.imports.push(Import { module: m, target, path, qualifier });
+        (target, Some(self.prog.imports.len() - 1))
+    }
+
+    fn n_decls(&self) -> usize {
+        self.mod_decls.iter().map(|d| d.len()).sum()
+    }
+
+    /// Creates a declaration of kind `k` (body generated later) and returns a reference to it.
+    fn new_decl(&mut self, k: K, acyclic: bool) -> VarRef {
+        let (module, via) = self.place();
+        let reference = k.is_schema() && !matches!(k, K::F(_, _)) && self.t.chance(1, 4);
+        let name = self.fresh_decl_name(module, reference);
+        let id = self.prog.fresh_binder(name, BinderKind::Decl { module }, k);
+        self.mod_decls[module].push(id);
+        if acyclic {
+            self.acyclic.insert(id);
+        }
+        self.clock += 1;
+        self.queue.push_back(Pending { id, module, created_at: self.clock, acyclic });
+        if via.is_some() {
+            self.labels.insert("cross-module-use");
+        }
+        VarRef { binder: Some(id), via, free_name: None }
+    }
+
+    fn new_function(&mut self, ret: K, acyclic: bool) -> (VarRef, Vec<K>) {
+        let n = self.t.range(1, 3);
+        let mut params = Vec::new();
+        for _ in 0..n {
+            let w = match self.t.choose(8) {
+                0 | 1 => Want::Schema(None),
+                2 => Want::Plain(Tag::Obj),
+                3 => Want::Prop(None),
+                4 => Want::Content,
+                5 => Want::Text,
+                6 => Want::StatusLike,
+                _ => Want::Plain(Tag::Uri),
+            };
+            params.push(self.concrete_kind(&w));
+        }
+        let k = K::F(params.clone(), Box::new(ret));
+        let v = self.new_decl(k, acyclic);
+        (v, params)
+    }
+
+    // -------------------------------------------------------------------------------------
+    // Expressions
+
+    fn spend(&mut self) -> bool {
+        self.budget -= 1;
+        self.budget > 0
+    }
+
+    pub fn gen(&mut self, w: &Want, depth: usize) -> E {
+        let e = self.gen_inner(w, depth);
+        self.decorate(e, w)
+    }
+
+    fn decorate(&mut self, e: E, w: &Want) -> E {
+        let mut e = e;
+        if self.t.chance(1, 16) {
+            e = E::Paren(Box::new(e));
+        }
+        if self.cfg.annotations && self.t.chance(1, 6) {
+            let k = self.ann_for(w);
+            let (lines, inline) = match self.t.choose(4) {
+                0 => (vec![k], None),
+                1 => (vec![], Some(k)),
+                2 => {
+                    let k2 = self.ann_for(w);
+                    (vec![k, k2], None)
+                }
+                _ => {
+                    let k2 = self.ann_for(w);
+                    (vec![k], Some(k2))
+                }
+            };
+            self.labels.insert("annotation");
+            e = E::Ann(lines, inline, Box::new(e));
+        }
+        e
+    }
+
+    fn str_value(&mut self) -> Value {
+        json!(self.t.pick(STRINGS))
+    }
+
+    /// An annotation map relevant (mostly) to what the position holds.
+    pub fn ann_for(&mut self, w: &Want) -> Ann {
+        let mut a = Ann::new();
+        let n = self.t.range(1, 3);
+        for _ in 0..n {
+            let general = ["description", "title", "required", "examples"];
+            let prim = ["minimum", "maximum", "multipleOf", "example", "pattern", "enum", "format", "minLength", "maxLength"];
+            let xfer = ["summary", "tags", "operationId", "description"];
+            let key = match w {
+                Want::Transfer => self.t.pick(&xfer),
+                Want::Schema(Some(Tag::Prim)) | Want::Plain(Tag::Prim) => {
+                    if self.t.chance(2, 3) {
+                        self.t.pick(&prim)
+                    } else {
+                        self.t.pick(&general)
+                    }
+                }
+                _ => match self.t.choose(10) {
+                    0 => self.t.pick(&prim),
+                    1 => self.t.pick(&xfer),
+                    2 => "x-unknown",
+                    _ => self.t.pick(&general),
+                },
+            };
+            let v = match key {
+                "description" | "title" | "summary" | "pattern" | "format" => {
+                    if self.t.chance(1, 12) {
+                        json!(self.t.choose(100))
+                    } else {
+                        self.str_value()
+                    }
+                }
+                "operationId" => json!(format!("op{}", self.t.choose(1000))),
+                "required" => {
+                    if self.t.chance(1, 10) {
+                        json!("yes")
+                    } else {
+                        json!(self.t.chance(1, 2))
+                    }
+                }
+                "examples" => {
+                    let n = self.t.range(1, 5);
+                    let mut m = serde_json::Map::new();
+                    for i in 0..n {
+                        let k = format!("{}{}", self.t.pick(&["ex", "e", "sample", "z", "A"]), i);
+                        if self.t.chance(1, 10) {
+                            m.insert(k, json!(self.t.choose(9)));
+                        } else {
+                            m.insert(k, json!(format!("examples/{}.json", self.t.choose(50))));
+                        }
+                    }
+                    Value::Object(m)
+                }
+                "minimum" | "maximum" | "multipleOf" | "example" => match self.t.choose(6) {
+                    0 => json!(0),
+                    1 => json!(-3),
+                    2 => json!(1.5),
+                    3 => json!(i64::MAX),
+                    4 => self.str_value(),
+                    _ => json!(self.t.choose(1000)),
+                },
+                "minLength" | "maxLength" => match self.t.choose(4) {
+                    0 => json!(-1),
+                    1 => json!(2.5),
+                    _ => json!(self.t.choose(64)),
+                },
+                "enum" | "tags" => {
+                    let n = self.t.range(0, 3);
+                    let mut v = Vec::new();
+                    for _ in 0..n {
+                        if self.t.chance(1, 8) {
+                            v.push(json!(self.t.choose(5)));
+                        } else {
+                            v.push(self.str_value());
+                        }
+                    }
+                    Value::Array(v)
+                }
+                _ => json!({"k": [1, "two"]}),
+            };
+            a.insert(key.to_owned(), v);
+        }
+        a
+    }
+
+    fn gen_args(&mut self, params: &[K], cross: bool, depth: usize) -> Vec<E> {
+        params
+            .iter()
+            .map(|p| {
+                self.head = true;
+                self.rec_head = false;
+                if cross && self.t.chance(1, 3) {
+                    self.labels.insert("cross-module-other-kind");
+                    let w2 = self.t.choose(3);
+                    let w2 = [Want::Content, Want::Schema(None), Want::Text][w2].clone();
+                    self.gen(&w2, depth.saturating_sub(1))
+                } else {
+                    self.gen(&Self::want_of(p), depth.saturating_sub(1))
+                }
+            })
+            .collect()
+    }
+
+    /// A reference to something visible (or created on demand) that fits the position.
+    fn gen_var(&mut self, w: &Want, depth: usize, at_head: bool) -> Option<E> {
+        let vis = self.visible();
+        let plain = matches!(w, Want::Plain(_));
+        // (binder, via, parameter kinds when it is to be applied)
+        let mut cands: Vec<(Bid, Option<ImportId>, Option<Vec<K>>)> = Vec::new();
+        for (b, via) in &vis {
+            let k = self.prog.binders[*b].k.clone();
+            if let BinderKind::Rec = self.prog.binders[*b].kind {
+                // `rec x x` has no constructor to give it a kind.
+                if at_head {
+                    continue;
+                }
+            }
+            if let BinderKind::Param { .. } = self.prog.binders[*b].kind {
+                // `rec x p`: the kind of a parameter may be unknown inside its module.
+                if at_head && self.rec_head {
+                    continue;
+                }
+            }
+            if let BinderKind::Decl { .. } = self.prog.binders[*b].kind {
+                if self.cur_acyclic() {
+                    // An acyclic declaration mentions only what keeps it acyclic, in every position.
+                    if !self.safe_for_plain(*b) {
+                        continue;
+                    }
+                } else if !self.cycle_ok(*b, at_head) {
+                    continue;
+                }
+            }
+            match &k {
+                K::F(params, ret) => {
+                    if depth > 0 && self.satisfies(ret, w, None) {
+                        // In a plain slot the function's result must not be on a cycle either.
+                        if plain && !self.cfg.loose_rec_as_plain && !self.safe_for_plain(*b) {
+                            continue;
+                        }
+                        cands.push((*b, *via, Some(params.clone())));
+                    }
+                }
+                k => {
+                    if self.satisfies(k, w, Some(*b)) {
+                        cands.push((*b, *via, None));
+                    }
+                }
+            }
+        }
+        let can_create = self.n_decls() < self.cfg.max_decls;
+        if !cands.is_empty() && (!can_create || self.t.chance(7, 10)) {
+            let i = self.t.choose(cands.len());
+            let (b, via, params) = cands.swap_remove(i);
+            match self.prog.binders[b].kind {
+                BinderKind::Param { .. } => {
+                    self.labels.insert("param-use");
+                }
+                BinderKind::Rec => {
+                    self.labels.insert("rec-var-use");
+                }
+                BinderKind::Decl { .. } => {
+                    if self.prog.binders[b].name.starts_with('@') {
+                        self.labels.insert("at-reference");
+                    }
+                    if via.is_some() {
+                        self.labels.insert("cross-module-use");
+                    }
+                }
+            }
+            if let BinderKind::Decl { .. } = self.prog.binders[b].kind {
+                self.note_edge(b);
+            }
+            let v = VarRef { binder: Some(b), via, free_name: None };
+            return Some(match params {
+                Some(ps) => {
+                    self.labels.insert("application");
+                    let cross = via.is_some() && self.cfg.loose_cross_module_poly;
+                    let args = self.gen_args(&ps, cross, depth);
+                    E::App(v, args)
+                }
+                None => E::Var(v),
+            });
+        }
+        if can_create {
+            let k = self.concrete_kind(w);
+            let acyclic = plain || self.cur_acyclic();
+            if depth > 0 && self.t.chance(1, 3) && !matches!(k, K::Ranges) {
+                let (f, params) = self.new_function(k, acyclic);
+                self.note_edge(f.binder.unwrap());
+                let cross = f.via.is_some() && self.cfg.loose_cross_module_poly;
+                let args = self.gen_args(&params, cross, depth);
+                self.labels.insert("application");
+                return Some(E::App(f, args));
+            }
+            let v = self.new_decl(k, acyclic);
+            self.note_edge(v.binder.unwrap());
+            return Some(E::Var(v));
+        }
+        None
+    }
+
+    fn gen_inner(&mut self, w: &Want, depth: usize) -> E {
+        let alive = self.spend();
+        let depth = if alive { depth } else { 0 };
+        let var_odds = if depth == 0 { (1, 2) } else { (3, 10) };
+        let at_head = self.head;
+        let at_rec_head = self.rec_head;
+        if self.t.chance(var_odds.0, var_odds.1) {
+            if let Some(e) = self.gen_var(w, depth, at_head) {
+                self.head = false;
+                self.rec_head = false;
+                return e;
+            }
+        }
+        // Anything below is inside a constructor.
+        self.head = false;
+        self.rec_head = false;
+        if at_head {
+            if let Want::Schema(tag) = w {
+                return self.gen_schema_at(*tag, depth, true, at_rec_head);
+            }
+        }
+        match w {
+            Want::Schema(tag) => self.gen_schema(*tag, depth),
+            Want::Plain(tag) => self.gen_plain(*tag, depth),
+            Want::Prop(tag) => self.gen_prop(*tag, depth),
+            Want::Content => self.gen_content(depth),
+            Want::ContentLike => {
+                if self.t.chance(1, 2) {
+                    self.gen_content(depth)
+                } else {
+                    self.gen_schema(None, depth)
+                }
+            }
+            Want::RangesLike => match self.t.choose(4) {
+                0 => self.gen_content(depth),
+                1 => self.gen_schema(None, depth),
+                _ if depth > 0 => {
+                    self.labels.insert("ranges");
+                    let n = self.t.range(2, 4);
+                    let ops = (0..n)
+                        .map(|_| {
+                            let w = if self.t.chance(3, 4) { Want::Content } else { Want::RangesLike };
+                            self.gen(&w, depth - 1)
+                        })
+                        .collect();
+                    E::Op(OpKind::Range, ops)
+                }
+                _ => self.gen_content(depth),
+            },
+            Want::Transfer => self.gen_transfer(depth),
+            Want::Text => {
+                if self.t.chance(1, 2) {
+                    E::Str(self.t.pick(MEDIA).to_owned())
+                } else {
+                    E::Str(self.t.pick(&["x/y", "a/b", "text/csv", "weird media", ""]).to_owned())
+                }
+            }
+            Want::Number => E::Num(self.status_number()),
+            Want::Status => E::Status(self.t.range(1, 5) as u8),
+            Want::StatusLike => {
+                if self.t.chance(2, 3) {
+                    E::Num(self.status_number())
+                } else {
+                    E::Status(self.t.range(1, 5) as u8)
+                }
+            }
+        }
+    }
+
+    fn status_number(&mut self) -> u64 {
+        if !self.cfg.strict && self.t.chance(1, 12) {
+            self.labels.insert("status-out-of-range");
+            return self.t.pick(&[0u64, 99, 600, 1000, 65536, 4294967296, u64::MAX]);
+        }
+        self.t.pick(&[200u64, 201, 204, 301, 400, 404, 500, 100, 599, 418])
+    }
+
+    fn gen_schema(&mut self, tag: Option<Tag>, depth: usize) -> E {
+        self.gen_schema_at(tag, depth, false, false)
+    }
+
+    fn gen_schema_at(&mut self, tag: Option<Tag>, depth: usize, at_head: bool, at_rec_head: bool) -> E {
+        let tag = tag.unwrap_or_else(|| self.t.pick(&[Tag::Prim, Tag::Obj, Tag::Arr, Tag::Prim, Tag::Obj, Tag::Any, Tag::Uri, Tag::Rel]));
+        if depth == 0 {
+            return match tag {
+                Tag::Any => E::Op(OpKind::Any, vec![E::Prim(Prim::Num), E::Prim(Prim::Str)]),
+                t => self.gen_plain(t, 0),
+            };
+        }
+        // Operator forms.
+        let op = match (tag, self.t.choose(10)) {
+            (Tag::Any, _) => Some(OpKind::Any),
+            (Tag::Obj, 0 | 1) => Some(OpKind::Join),
+            (_, 2) => Some(OpKind::Sum),
+            _ => None,
+        };
+        match op {
+            Some(k) => {
+                let n = self.t.range(2, 3);
+                let ops = (0..n)
+                    .map(|_| match k {
+                        OpKind::Any => self.gen(&Want::Schema(None), depth - 1),
+                        OpKind::Sum => {
+                            // `|` takes its kind from its operands: they are as much a head as it is.
+                            self.head = at_head;
+                            self.rec_head = at_rec_head;
+                            self.gen(&Want::Schema(Some(tag)), depth - 1)
+                        }
+                        _ => self.gen(&Want::Schema(Some(tag)), depth - 1),
+                    })
+                    .collect();
+                self.labels.insert(match k {
+                    OpKind::Join => "join",
+                    OpKind::Any => "any",
+                    _ => "sum",
+                });
+                E::Op(k, ops)
+            }
+            None => {
+                // A recursive schema, sometimes.
+                if tag != Tag::Uri && self.t.chance(1, 10) {
+                    return self.gen_rec(tag, depth, false);
+                }
+                // A recursion variable in scope, if there is one of that tag.
+                let recs: Vec<Bid> = self
+                    .visible()
+                    .into_iter()
+                    .filter(|(b, _)| self.prog.binders[*b].k == K::S(tag, Shape::RecVar))
+                    .map(|(b, _)| b)
+                    .collect();
+                if !recs.is_empty() && !at_head && self.t.chance(1, 2) {
+                    self.labels.insert("rec-var-use");
+                    let b = self.t.pick(&recs);
+                    return E::Var(VarRef { binder: Some(b), via: None, free_name: None });
+                }
+                self.gen_plain(tag, depth)
+            }
+        }
+    }
+
+    fn gen_rec(&mut self, tag: Tag, depth: usize, plain: bool) -> E {
+        let mut name = self.fresh_local_name();
+        if name == "concat" {
+            name = "r".to_owned();
+        }
+        let b = self.prog.fresh_binder(name, BinderKind::Rec, K::S(tag, Shape::RecVar));
+        self.scope.push(b);
+        self.labels.insert("rec");
+        self.head = true;
+        self.rec_head = true;
+        let body = if plain || tag == Tag::Any {
+            match tag {
+                Tag::Any => self.gen(&Want::Schema(Some(Tag::Any)), depth.saturating_sub(1).max(1)),
+                t => self.gen(&Want::Plain(t), depth.saturating_sub(1).max(1)),
+            }
+        } else {
+            self.gen(&Want::Schema(Some(tag)), depth.saturating_sub(1).max(1))
+        };
+        self.scope.pop();
+        E::Rec(b, Box::new(body))
+    }
+
+    fn gen_plain(&mut self, tag: Tag, depth: usize) -> E {
+        match tag {
+            Tag::Prim => E::Prim(self.t.pick(&[Prim::Num, Prim::Str, Prim::Bool, Prim::Int, Prim::Str, Prim::Uri])),
+            Tag::Obj => {
+                if depth > 0 && self.t.chance(1, 12) {
+                    return self.gen_rec(Tag::Obj, depth, true);
+                }
+                let n = if depth == 0 { 0 } else { self.t.range(0, 4) };
+                E::Object(self.gen_props(n, depth))
+            }
+            Tag::Arr => {
+                if depth == 0 {
+                    return E::Array(Box::new(E::Prim(Prim::Str)));
+                }
+                if self.t.chance(1, 12) {
+                    return self.gen_rec(Tag::Arr, depth, true);
+                }
+                E::Array(Box::new(self.gen(&Want::Schema(None), depth - 1)))
+            }
+            Tag::Uri => self.gen_uri(depth),
+            Tag::Rel => self.gen_relation(depth),
+            Tag::Any => E::Op(OpKind::Any, vec![E::Prim(Prim::Num), E::Object(vec![])]),
+        }
+    }
+
+    /// Property lists with pairwise distinct names (in strict mode).
+    fn gen_props(&mut self, n: usize, depth: usize) -> Vec<E> {
+        let mut out = Vec::new();
+        for _ in 0..n {
+            out.push(self.gen(&Want::Prop(None), depth.saturating_sub(1)));
+        }
+        out
+    }
+
+    fn gen_prop(&mut self, tag: Option<Tag>, depth: usize) -> E {
+        let name = self.t.pick(PROP_NAMES).to_owned();
+        let mark = match self.t.choose(4) {
+            0 => Some(true),
+            1 => Some(false),
+            _ => None,
+        };
+        let rhs = if depth == 0 {
+            match tag {
+                Some(t) => self.gen_schema(Some(t), 0),
+                None => E::Prim(Prim::Num),
+            }
+        } else {
+            self.gen(&Want::Schema(tag), depth - 1)
+        };
+        let p = E::Property(name, mark, Box::new(rhs));
+        if depth > 0 && self.t.chance(1, 10) {
+            self.labels.insert("unary");
+            E::Unary(Box::new(p), self.t.chance(1, 2))
+        } else {
+            p
+        }
+    }
+
+    fn gen_uri(&mut self, depth: usize) -> E {
+        if depth > 0 && self.concat_visible() && self.t.chance(1, 8) {
+            self.labels.insert("concat");
+            let a = self.gen(&Want::Plain(Tag::Uri), depth - 1);
+            let b = self.gen(&Want::Plain(Tag::Uri), depth - 1);
+            return E::App(VarRef { binder: None, via: None, free_name: Some("concat".to_owned()) }, vec![a, b]);
+        }
+        let n = self.t.range(1, 3);
+        let mut segs = Vec::new();
+        for _ in 0..n {
+            match self.t.choose(6) {
+                0 if depth > 0 => {
+                    self.labels.insert("uri-variable");
+                    segs.push(Seg::Var(self.gen(&Want::Prop(Some(Tag::Prim)), depth - 1)))
+                }
+                1 => segs.push(Seg::Root),
+                _ => segs.push(Seg::Lit(self.t.pick(SEGMENTS).to_owned())),
+            }
+        }
+        let params = if depth > 0 && self.t.chance(1, 5) {
+            self.labels.insert("uri-query");
+            let n = self.t.range(0, 2);
+            Some(self.gen_props(n, depth))
+        } else {
+            None
+        };
+        E::Uri(segs, params)
+    }
+
+    fn gen_content(&mut self, depth: usize) -> E {
+        let mut metas = Vec::new();
+        if depth > 0 {
+            let mut kinds = vec![MetaKind::Media, MetaKind::Status, MetaKind::Headers];
+            let n = self.t.range(0, 3);
+            for _ in 0..n {
+                let i = self.t.choose(kinds.len());
+                let k = kinds.remove(i);
+                let v = match k {
+                    MetaKind::Media => self.gen(&Want::Text, depth - 1),
+                    MetaKind::Status => self.gen(&Want::StatusLike, depth - 1),
+                    MetaKind::Headers => {
+                        self.labels.insert("headers");
+                        self.gen(&Want::Plain(Tag::Obj), depth - 1)
+                    }
+                };
+                metas.push((k, v));
+            }
+        }
+        let body = if self.t.chance(4, 5) {
+            Some(Box::new(if depth == 0 { E::Object(vec![]) } else { self.gen(&Want::Schema(None), depth - 1) }))
+        } else {
+            None
+        };
+        E::Content(metas, body)
+    }
+
+    fn gen_transfer(&mut self, depth: usize) -> E {
+        let n = self.t.range(1, 2);
+        let mut methods = Vec::new();
+        for _ in 0..n {
+            let m = self.t.pick(&ALL_METHODS);
+            if !methods.contains(&m) {
+                methods.push(m);
+            }
+        }
+        let params = if depth > 0 && self.t.chance(1, 4) {
+            self.labels.insert("xfer-params");
+            let n = self.t.range(0, 2);
+            Some(self.gen_props(n, depth))
+        } else {
+            None
+        };
+        let domain = if depth > 0 && self.t.chance(1, 3) {
+            self.labels.insert("request-body");
+            Some(Box::new(self.gen(&Want::ContentLike, depth - 1)))
+        } else {
+            None
+        };
+        let range = Box::new(self.gen(&Want::RangesLike, depth.saturating_sub(1)));
+        E::Transfer { methods, params, domain, range }
+    }
+
+    fn gen_relation(&mut self, depth: usize) -> E {
+        let uri = self.gen(&Want::Plain(Tag::Uri), depth.saturating_sub(1));
+        let n = self.t.range(1, 2);
+        let xfers = (0..n).map(|_| self.gen(&Want::Transfer, depth.saturating_sub(1))).collect();
+        E::Relation(Box::new(uri), xfers)
+    }
+
+    // -------------------------------------------------------------------------------------
+    // Programs
+
+    fn gen_decl_body(&mut self, p: Pending) {
+        let k = self.prog.binders[p.id].k.clone();
+        self.cur_module = p.module;
+        self.scope.clear();
+        self.budget = 40;
+        let depth = self.cfg.max_depth;
+        let id = p.id;
+        self.cur = Some(p);
+        self.head = true;
+        self.rec_head = false;
+        let (params, body) = match &k {
+            K::F(pks, ret) => {
+                let mut params = Vec::new();
+                for pk in pks {
+                    let mut name = self.fresh_local_name();
+                    let mut tries = 0;
+                    while params.iter().any(|b: &Bid| self.name_of(*b) == name) {
+                        tries += 1;
+                        name = format!("{}{}", self.fresh_local_name(), tries);
+                    }
+                    let b = self.prog.fresh_binder(name, BinderKind::Param { decl: id }, pk.clone());
+                    params.push(b);
+                }
+                self.scope = params.clone();
+                self.labels.insert("function");
+                let w = Self::want_of(ret);
+                let body = self.gen(&w, depth);
+                (params, body)
+            }
+            K::S(tag, Shape::Op) if *tag != Tag::Any => {
+                // An operator result of that tag.
+                let kind = if *tag == Tag::Obj && self.t.chance(1, 2) { OpKind::Join } else { OpKind::Sum };
+                let n = self.t.range(2, 3);
+                let ops = (0..n)
+                    .map(|_| {
+                        self.head = kind == OpKind::Sum;
+                        self.gen(&Want::Schema(Some(*tag)), depth - 1)
+                    })
+                    .collect();
+                (vec![], E::Op(kind, ops))
+            }
+            k => {
+                let w = Self::want_of(k);
+                (vec![], self.gen(&w, depth))
+            }
+        };
+        let anns = if self.cfg.annotations && self.t.chance(1, 4) {
+            let w = Self::want_of(match &k {
+                K::F(_, r) => r,
+                k => k,
+            });
+            let n = self.t.range(1, 2);
+            self.labels.insert("decl-annotation");
+            (0..n).map(|_| self.ann_for(&w)).collect()
+        } else {
+            vec![]
+        };
+        self.scope.clear();
+        self.cur = None;
+        self.clock += 1;
+        self.completed.insert(id, self.clock);
+        let m = self.cur_module;
+        self.prog.modules[m].stmts.push(Stmt::Let(Decl { id, anns, params, body }));
+    }
+
+    fn drain_queue(&mut self) {
+        while let Some(p) = self.queue.pop_front() {
+            self.gen_decl_body(p);
+        }
+    }
+
+    pub fn program(mut self) -> (Program, BTreeSet<&'static str>) {
+        self.add_module();
+        let n_res = self.t.range(1, self.cfg.max_resources.max(1));
+        // A few declarations first, so that resources have something to mention.
+        let warm = self.t.range(0, 3);
+        for _ in 0..warm {
+            self.cur_module = 0;
+            let w = self.t.pick(&[0usize, 1, 2, 3]);
+            let w = [Want::Schema(None), Want::Content, Want::Transfer, Want::Plain(Tag::Obj)][w].clone();
+            let k = self.concrete_kind(&w);
+            let plain = matches!(w, Want::Plain(_));
+            self.new_decl(k, plain);
+            self.drain_queue();
+        }
+        for _ in 0..n_res {
+            self.cur_module = 0;
+            self.scope.clear();
+            self.cur = None;
+            self.budget = 60;
+            self.head = false;
+            let depth = self.cfg.max_depth;
+            let e = if self.t.chance(1, 8) {
+                self.gen(&Want::Plain(Tag::Uri), depth)
+            } else {
+                self.gen(&Want::Plain(Tag::Rel), depth)
+            };
+            self.prog.modules[0].stmts.push(Stmt::Res(e));
+            self.drain_queue();
+        }
+        // Import statements, then a tape-chosen statement order per module.
+        for (ii, imp) in self.prog.imports.clone().iter().enumerate() {
+            self.prog.modules[imp.module].stmts.push(Stmt::Use(ii));
+        }
+        for m in 0..self.prog.modules.len() {
+            let stmts = std::mem::take(&mut self.prog.modules[m].stmts);
+            // Resources keep their relative order; everything else moves freely.
+            let (res, mut other): (Vec<Stmt>, Vec<Stmt>) = stmts.into_iter().partition(|s| matches!(s, Stmt::Res(_)));
+            for i in (1..other.len()).rev() {
+                let j = self.t.choose(i + 1);
+                other.swap(i, j);
+            }
+            let mut out = Vec::new();
+            let (mut ri, mut oi) = (res.into_iter().peekable(), other.into_iter().peekable());
+            loop {
+                match (ri.peek().is_some(), oi.peek().is_some()) {
+                    (true, true) => {
+                        if self.t.chance(1, 2) {
+                            out.push(ri.next().unwrap())
+                        } else {
+                            out.push(oi.next().unwrap())
+                        }
+                    }
+                    (true, false) => out.push(ri.next().unwrap()),
+                    (false, true) => out.push(oi.next().unwrap()),
+                    (false, false) => break,
+                }
+            }
+            self.prog.modules[m].stmts = out;
+        }
+        if self.prog.modules.len() > 1 {
+            self.labels.insert("multi-module");
+        }
+        (self.prog, self.labels)
+    }
+}
+
+/// A small valid-looking program as text (used by text-level mutation).
+pub fn quick_program_text(t: &mut Tape) -> String {
+    let cfg = GenCfg { max_modules: 1, max_decls: 5, max_depth: 3, max_resources: 2, ..GenCfg::full() };
+    let (prog, _) = Gen::new(t, cfg).program();
+    render_plain(&prog)[0].text.clone()
 }
